@@ -41,7 +41,17 @@ fn part_outcome() -> impl Strategy<Value = PartOutcome> {
 fn c15_strategy() -> impl Strategy<Value = Scenario> {
     (
         proptest::collection::vec(part_status(), 0..=4),
-        proptest::collection::vec(prop_oneof![5 => any::<u16>().prop_map(Step::Answer), 4 => (any::<u16>(), part_outcome()).prop_map(|(i, o)| Step::Part(i, o)), 1 => Just(Step::Tick(1))], 0..14),
+        proptest::collection::vec(
+            prop_oneof![
+                10 => any::<u16>().prop_map(Step::Answer),
+                8 => (any::<u16>(), part_outcome()).prop_map(|(i, o)| Step::Part(i, o)),
+                2 => prop_oneof![Just(Step::Tick(1)), Just(Step::Tick(13))],
+                // RPC-level failures: a waitsendpay that errors while its part is still in flight, a failing list query
+                2 => (any::<u16>(), proptest::sample::select(&[-1i32, 200, 400][..])).prop_map(|(i, c)| Step::FailWait(i, c)),
+                1 => (any::<u16>(), proptest::sample::select(&[-1i32, 400][..])).prop_map(|(i, c)| Step::AnswerErr(i, c)),
+            ],
+            0..14,
+        ),
         any::<bool>(),
         any::<u64>(),
     )
@@ -85,7 +95,7 @@ fn c15_exhaustive(maxlen: usize) -> Vec<Scenario> {
 }
 
 pub fn run_c15(tier: Tier, seed: u64) -> i32 {
-    let rule = "Unit world (real PayPaymentProvider<Rpc> + simulated node): 0-4 parts in arbitrary initial states, part completions/failures (codes 202/203/204/209) interleaved at every position among the answers of the two list queries and the waitsendpay calls; exhaustive over all event sequences up to length 4 (quick) / 6 (thorough) for 1-2 pending parts. Oracle at return: Some(p) => a part is complete with preimage p; None => nothing pending or complete at that instant; Err is a violation (no RPC-level error is injected). Non-trivial: a part changed status after the first list answer and before the return; distinct by abstract trace hash.";
+    let rule = "Unit world (real PayPaymentProvider<Rpc> + simulated node): 0-4 parts in arbitrary initial states, part completions/failures (codes 202/203/204/209) interleaved at every position among the answers of the two list queries and the waitsendpay calls; exhaustive over all event sequences up to length 4 (quick) / 6 (thorough) for 1-2 pending parts. Oracle at return: Some(p) => a part is complete with preimage p; None => nothing pending or complete at that instant; Err is a violation unless an RPC-level error was injected in that case (waitsendpay answered -1/200/400 while its part is in flight, a failing list query): those may end the wait with Err, never with None while a part is live. Non-trivial: a part changed status after the first list answer and before the return; distinct by abstract trace hash.";
     let mut s = Session::new("C15", tier, seed, "exploration", rule);
     s.assume("node model: listsendpays is a snapshot at the instant it is answered; waitsendpay is held while its part is pending");
     let nontrivial: fn(&Stats) -> bool = |st| st.part_changed_during_wait > 0;
@@ -117,6 +127,7 @@ fn c16_strategy() -> impl Strategy<Value = Scenario> {
                 4 => any::<u16>().prop_map(Step::PayPart),
                 4 => (any::<u16>(), part_outcome()).prop_map(|(i, o)| Step::Part(i, o)),
                 3 => (any::<u16>(), pay_outcome()).prop_map(|(i, o)| Step::PayFinish(i, o)),
+                1 => Just(Step::Tick(13)),
             ],
             0..14,
         ),
